@@ -58,6 +58,16 @@ def run_case(rng, tier, case):
     for a in spec['assets']:
         if a['type'] in ('Plant', 'CHPAsset') and rng.random() < 0.4:
             a['freq'] = g['freq']           # a plant may state the frequency it is meant for (it must equal the grid's, compared as text)
+    if rng.random() < 0.12:
+        # open-ended assets the way users write them: an end far in the future / a start far in the past (outside the nanosecond range of pandas)
+        cand = [a for a in spec['assets'] if a['type'] in ('SimpleContract', 'Contract', 'Transport', 'Storage', 'Plant') and not a.get('freq') and not a.get('periodicity')
+                and a.get('_date_form', 'datetime') in ('datetime', 'timestamp')]
+        if cand:
+            a = cand[int(rng.integers(len(cand)))]
+            if a.get('end') is None and rng.random() < 0.7:
+                a['end'] = '2999-12-31 00:00:00'; case.feature('end_far_future')
+            elif a.get('start') is None:
+                a['start'] = '1650-06-01 12:00:00'; case.feature('start_far_past')
     for t in gen.asset_types(spec):
         case.feature('type:' + t)
     own_grid = rng.random() < 0.6
@@ -185,6 +195,29 @@ def run_case(rng, tier, case):
                         case.check('json.set_param_identity_same_problem', d is None, path=str(path)[:80], diff=d)
                 except Exception as e:
                     case.check('json.set_param_identity_same_problem', False, error='%s: %s' % (type(e).__name__, str(e)[:160]))
+    if rng.random() < 0.3:
+        # the FILE variants: several objects saved one after the other under the same file name (a revised portfolio replaces the old file);
+        # what is loaded is what was saved last
+        import tempfile, shutil, os
+        d_ = tempfile.mkdtemp(prefix='eaomon_c11_')
+        try:
+            fn = os.path.join(d_, 'saved.json')
+            with env.quiet():
+                for i_ in [int(q) for q in rng.permutation(len(objs))[:3]]:
+                    label, o = objs[i_]
+                    try:
+                        s_str = ser.to_json(o); ser.load_from_json(s_str)
+                    except Exception:
+                        continue                     # (judged above)
+                    try:
+                        ser.to_json(o, fn)
+                        o_l = ser.load_from_json(file_name=fn)
+                        case.check('json.file_holds_what_was_saved_last', ser.to_json(o_l) == s_str, object=label, name=getattr(o, 'name', None),
+                                   loaded=type(o_l).__name__ + ':' + str(getattr(o_l, 'name', None)))
+                    except Exception as e:
+                        case.check('json.file_holds_what_was_saved_last', False, object=label, error='%s: %s' % (type(e).__name__, str(e)[:160]))
+        finally:
+            shutil.rmtree(d_, ignore_errors=True)
     case.nontrivial = len(spec['assets']) >= 3
 
 
